@@ -491,7 +491,7 @@ pub fn build_world(seed: u64, idx: u64, out: &mut RunOut) -> World {
       let f = *rw.pick(FAMILIES);
       let nesting = matches!(
         f,
-        Family::SchemaArray | Family::SchemaMap | Family::SchemaParen | Family::SchemaGroup | Family::SchemaArrayNamed | Family::SchemaGeneric | Family::SchemaChoiceNest | Family::DataArray | Family::DataMap | Family::DataTag | Family::RecursiveRule | Family::AbnfNest
+        Family::SchemaArray | Family::SchemaMap | Family::SchemaParen | Family::SchemaGroup | Family::SchemaArrayNamed | Family::SchemaGeneric | Family::SchemaChoiceNest | Family::DataArray | Family::DataMap | Family::DataTag | Family::RecursiveRule | Family::AbnfNest | Family::ArrayChoiceNest
       );
       // exponential-by-construction families stay small here; the growth check measures them
       let n = match f {
